@@ -48,6 +48,12 @@ def gen_column(rng, kind, n, pattern="none"):
         base = np.datetime64("2020-01-01T00:00:00", unit).astype("int64")
         step = {"ns": 10 ** 9, "us": 10 ** 6, "ms": 10 ** 3, "s": 1}[unit]
         ints = [base + rng.randrange(-10 ** 6, 10 ** 6) * step + (rng.randrange(0, step) if step > 1 else 0) for _ in range(n)]
+        # instants at the very end / start of a day and around the epoch (the last representable tick before midnight)
+        day = 86400 * step
+        edge = [base + day - 1, base + day, base - 1, -1, 0, day - 1, -day, -day - 1]
+        for j in range(min(n, len(edge))):
+            if j % 2 == 0 or rng.random() < 0.5:
+                ints[(j * 3) % n] = edge[j]
         arr = np.array(ints, dtype="int64").astype(f"datetime64[{unit}]") if n else np.array([], dtype=f"datetime64[{unit}]")
         s = pd.Series(arr)
         if any(m):
@@ -65,6 +71,11 @@ def gen_column(rng, kind, n, pattern="none"):
         cats = rng.sample(["c", "b", "a", "d", "zz"], rng.choice([2, 3, 5]))
         vals = [None if mm else rng.choice(cats) for mm in m]
         return pd.Series(pd.Categorical(vals, categories=cats, ordered=rng.random() < 0.3))
+    if kind == "cat_wide":
+        # more than 127 categories: 16-bit codes
+        cats = [f"L{j:03d}" for j in range(300)]
+        vals = [None if mm else cats[(7 * i + rng.randrange(0, 3)) % 300] for i, mm in enumerate(m)]
+        return pd.Series(pd.Categorical(vals, categories=cats))
     if kind == "cat_int":
         cats = rng.sample([10, 3, 7, 1, 99], rng.choice([2, 3, 5]))
         vals = [None if mm else rng.choice(cats) for mm in m]
